@@ -270,3 +270,14 @@ Definition strip_safe (s : str) : bool :=
   end.
 Definition gopher_expressible (s : str) : bool :=
   negb (mem_N TAB s) && negb (mem_N 10 s) && strip_safe s.
+
+Definition nospace (s : str) : bool := forallb (fun c => negb (is_space c)) s.
+(* the configured WAP prefix: no white space, no "?" *)
+Definition waptop_ok (w : str) : bool := nospace w && negb (mem_N QMARK w).
+Definition is_gopher_family (p : proto) : bool :=
+  match p with PGopher | PSGopher | PGopherPlus | PSGopherPlus | PUrlGopherPlus => true | _ => false end.
+Definition is_http (p : proto) : bool := match p with PHttp | PHttps => true | _ => false end.
+(* the selector is empty (the root, rendered as "/") or starts with a slash — every selector
+   a protocol hands to a handler does (slashnormalize) *)
+Definition rooted (s : str) : bool := match s with [] => true | c :: _ => c =? SLASH end.
+Definition nonempty (l : list N) : bool := match l with [] => false | _ => true end.
